@@ -150,6 +150,7 @@ theorem applyPerm_range_perm {n : Nat} {π a : List Nat} (hπ : π.Perm (List.ra
 
 /-! ### `localLoop` / `localShuffle` -/
 
+/-- popping position `c` and putting the popped element in front is a permutation -/
 theorem perm_cons_eraseIdx {α} {l : List α} {c : Nat} {y : α} (h : l[c]? = some y) :
     (y :: l.eraseIdx c).Perm l := by
   induction l generalizing c with
@@ -197,6 +198,9 @@ theorem localLoop_cons_badChoice {α} {bs : Nat} {x : α} {xs buf : List α} {c 
   rw [if_pos (by omega)]
   simp only [hy]
 
+/-- **loop invariant under a valid oracle.**  Started with at most `bs - 1` buffered examples
+    (re-established at every recursive call), choices `< bs` and enough of them:
+    `emitted ++ buffer` is a permutation of `buf ++ xs`, and both sizes are known. -/
 theorem localLoop_valid {α} {bs : Nat} (hbs : 1 ≤ bs) (xs buf : List α) (cs : List Nat)
     (hbuf : buf.length ≤ bs - 1) (hcs : ∀ c ∈ cs, c < bs)
     (hlen : buf.length + xs.length - (bs - 1) ≤ cs.length) :
@@ -235,6 +239,11 @@ theorem localLoop_valid {α} {bs : Nat} (hbs : 1 ≤ bs) (xs buf : List α) (cs 
         · simp only [List.length_cons, this.2.1, hel]; omega
         · simp only [this.2.2, hel]; simp; omega
 
+/-- **displacement invariant, any oracle.**  `f` is the source position, `k` the number of examples
+    consumed so far (`buf` holds positions `< k`, `xs[i]` has position `≤ k + i`); the number of
+    examples emitted so far is `k - buf.length`.  The `j`-th example emitted from here on, at global
+    output position `k - buf.length + j`, has source position at most that `+ (bs - 1)`; and the
+    examples left in the buffer can still be emitted at any later position. -/
 theorem localLoop_displacement {α} (f : α → Nat) {bs : Nat} (hbs : 1 ≤ bs)
     (xs buf : List α) (cs : List Nat) (k : Nat)
     (hbuf : buf.length ≤ bs - 1) (hbufk : ∀ y ∈ buf, f y < k)
@@ -381,6 +390,7 @@ theorem rstep_arr_perm {n : Nat} {s : RState} {op : ROp} (hs : s.arr.Perm (List.
     · exact hs
     · split <;> exact hs
 
+/-- the array invariant along a run -/
 theorem rrun_arr_perm {n : Nat} {s : RState} {ops : List ROp} (hs : s.arr.Perm (List.range n))
     (hops : ∀ op ∈ ops, ∀ π, op = .start π ∨ op = .freeze π → π.Perm (List.range n)) :
     (rrun s ops).1.arr.Perm (List.range n) := by
@@ -390,6 +400,7 @@ theorem rrun_arr_perm {n : Nat} {s : RState} {ops : List ROp} (hs : s.arr.Perm (
     rw [rrun_cons]
     exact ih (rstep_arr_perm hs (hops op (by simp))) (fun o ho => hops o (by simp [ho]))
 
+/-- every snapshot reported along a run is a permutation of `range n` -/
 theorem rrun_frozen_perm {n : Nat} {s : RState} {ops : List ROp} (hs : s.arr.Perm (List.range n))
     (hops : ∀ op ∈ ops, ∀ π, op = .start π ∨ op = .freeze π → π.Perm (List.range n))
     {a : List Nat} (ha : ROut.frozen a ∈ (rrun s ops).2) : a.Perm (List.range n) := by
@@ -411,6 +422,7 @@ theorem rrun_frozen_perm {n : Nat} {s : RState} {ops : List ROp} (hs : s.arr.Per
         · split at h <;> cases h
     · exact ih (rstep_arr_perm hs (hops op (by simp))) (fun o ho => hops o (by simp [ho])) h
 
+/-- iterators are never removed -/
 theorem rstep_pos_length_le (s : RState) (op : ROp) :
     s.pos.length ≤ (rstep s op).1.pos.length := by
   cases op with
